@@ -35,7 +35,11 @@ def run_C15(repo, tier, seed):
     tm = _mod(repo)
     rng = random.Random(seed)
     sets = [([-291.7, -5.167, 168.3, 1000.0], [0.005356, 1.002, 6577.0, 8430.0], 7.442),
-            ([-100.0, -50.0, 0.0, 40.0], [0.01, 0.8, 0.8, 300.0], 0.5)]
+            ([-100.0, -50.0, 0.0, 40.0], [0.01, 0.8, 0.8, 300.0], 0.5),
+            # D13: seven decades with kinks -- quad without breakpoints was off by 4e-7 relative and not monotone
+            ([-247.14632679808756, -204.8712984902944, -139.83650980208796, -5.13770682774026, 294.0822203942247, 296.3769856869237],
+             [3.4680545896727417, 0.008108255567043653, 5499.4847529056415, 266.33960678960443, 0.3834922321398456, 0.00044011538304594797],
+             0.19064192678076167)]
     for _ in range(2 if tier == "quick" else 25):
         n = rng.randint(2, 6)
         ks = sorted(rng.uniform(-400, 400) for _ in range(n))
@@ -59,7 +63,7 @@ def run_C15(repo, tier, seed):
                 got = T(z)
                 want = closed_form(ks, K, tmin, z)
                 vals.append(got)
-                if abs(got - want) > 1e-6 * max(want, 1e-12):
+                if abs(got - want) > 1e-8 * max(want, 1e-12):
                     failures.append({"key": "value", "input": dict(case, z=z), "observed": "T=%r, minimum + integral = %r" % (got, want)})
             if any(b < a - 1e-9 * max(abs(a), 1) for a, b in zip(vals, vals[1:])):
                 failures.append({"key": "monotone", "input": case, "observed": "decreases with level"})
@@ -70,7 +74,7 @@ def run_C15(repo, tier, seed):
             failures.append({"key": "raised-" + type(e).__name__, "input": case, "observed": "%s: %s" % (type(e).__name__, e)})
         if len(samples) < 2:
             samples.append(case)
-    return {"bound": "%d knot sets (2 fixed incl. a flat segment, rest seeded, conductivities over 8 decades) x levels at / below / between / at the top knot" % len(sets),
+    return {"bound": "%d knot sets (3 fixed incl. a flat segment and the D13 profile, rest seeded, conductivities over 8 decades) x levels at / below / between / at the top knot" % len(sets),
             "evaluations": ev, "distinct": len(sets), "exhaustive": False, "failures": failures[:3], "samples": samples}
 
 
